@@ -174,7 +174,8 @@ def step (s : Store) : Op → Store × Out
       | none => (s, err 401 "invalid_client")
       | some csecret =>
         if !truthyR token then (s, err 400 "missing_required_parameter")
-        else match (match token with | some (.tok n) => s.creds.find? (fun (c : CredRec) => c.n == n) | _ => none) with
+        -- the token credential is looked up for THIS client (django_oauth1: objects.get(client_id=…, oauth_token=…); Flask: query_token(client_id, oauth_token))
+        else match (match token with | some (.tok n) => s.creds.find? (fun (c : CredRec) => c.n == n && c.client == client.getD "") | _ => none) with
           | none => (s, err 401 "invalid_token")
           | some c =>
             match checkTsNonce s sg (client.getD "") token with
